@@ -108,7 +108,9 @@ def run(chk, F, tier):
                     hi_t = fmt(T.of_operand(hi_))
                     desc = "random_range(%s .. %s)" % (lo_s.rsplit("::", 1)[-1] or lo_s, hi_t[:80])
                     hi_term = T.of_operand(hi_)
-                    root_total = "first(" in hi_t or (hi_term[0] == "call" and hi_term[1] == "subtotal" and len(hi_term) == 4 and hi_term[3] == ("const", 0))
+                    # the root subtotal: subtotals.first(), subtotal(0), subtotals[0] or the head of a slice pattern
+                    root_total = "first(" in hi_t or (hi_term[0] == "call" and hi_term[1] == "subtotal" and len(hi_term) == 4 and hi_term[3] == ("const", 0)) \
+                        or bool(__import__("re").search(r"\[0\]\)*$", hi_t.replace("clone(", "").replace("unwrap(", ""))) or hi_t.rstrip(")").endswith("[0]")
                     t1 = (lo_s.endswith("ZERO") or lo_s in ("0", "0.0")) and root_total
         if t1:
             chk.ok("target", key + ": target = " + desc, nontrivial=True)
@@ -272,3 +274,8 @@ def run(chk, F, tier):
             chk.ok("descent", "%s: %d iteration paths (%s); every comparison is target' < subtotal(child) with exactly the ruled-out children subtracted; strict; index follows"
                    % (key, len(results), "/".join(kinds)), nontrivial=True)
     chk.floor("descent loops walked", nwalk, 3)
+    # the error clause of the property (shared with C09 R6): InsufficientNonZero exactly for an empty tree or a zero total
+    import rules_c09
+    from axioms import Axioms
+    n6 = rules_c09.try_sample_error_clause(chk, F, Axioms(F), rule="error-clause")
+    chk.floor("error-clause cases", n6, 15)
